@@ -27,7 +27,7 @@ from ..pool import pmap, scratch
 from ..tlc import MachineryError
 
 CFG = {"quick": "ValueCodecQuick.cfg", "thorough": "ValueCodecThorough.cfg"}
-TIER = {"quick": {"extra": 2, "picks": 1}, "thorough": {"extra": 12, "picks": 3}}
+TIER = {"quick": {"extra": 2, "picks": 1}, "thorough": {"extra": 12, "picks": 2}}
 BATCH = 60
 NEG = [("ValueCodecDev_IntCastWraps.cfg", "UnrepresentableRejected"),
        ("ValueCodecDev_FloatCastUnchecked.cfg", "UnrepresentableRejected"),
@@ -688,12 +688,36 @@ def _replay_batch(items):
     return {"viol": viol, "stats": dict(stats)}
 
 
+def _wrapped_map_invalid(item, inst):
+    """Deviation MapKeyWrapsU32, second consequence: when a wrapped key lands on key 0 the rows of the stored
+    'Value map' (read in order, later rows win: h5_reader.py:429-433) can give key 0 a label other than 'Unknown';
+    ReferenceValueMap then refuses the map while the tree is loaded and the file no longer opens."""
+    c, ab = item["c"], item["ab"]
+    if c["fam"] != "Map" or ab["verdict"] != "accept" or "WrapU32" not in ab["stored"]:
+        return False
+    rows = {}
+    try:
+        for key, label in zip(inst["elems"], inst["aux"]):
+            rows[int(key) % 2 ** 32] = label
+    except (TypeError, ValueError):
+        return False
+    if all(int(k) != 0 for k in inst["elems"]):
+        rows[0] = "Unknown"
+    return rows.get(0) != "Unknown" and rows != {0: "False", 1: "True"}
+
+
 def _judge_alone(item, inst):
     try:
         obs = _execute([item], [inst])[0]
     except Exception as exc:  # pylint: disable=broad-except
         # the write was let through and the file can no longer be closed / re-opened
         doc = {k: item[k] for k in ("c", "o", "ab", "pick", "seed", "extra")}
+        if _wrapped_map_invalid(item, inst):
+            sig = DEV_SIG["MapKeyWrapsU32"]
+            summary = (f"{_describe(item, inst)}: the specification demands reject (unrepresentable); geoh5py accepts, "
+                       f"the key wraps modulo 2^32 onto key 0 (named deviation MapKeyWrapsU32) and the file can no "
+                       f"longer be opened: {type(exc).__name__}: {str(exc)[:120]}")
+            return [{"signature": sig, "summary": summary, "case": doc}], "dev:" + sig
         summary = f"{_describe(item, inst)}: closing or re-opening the file raises {type(exc).__name__}: {str(exc)[:120]}"
         return [{"signature": f"file-unusable-after-write:{item['c']['kind']}", "summary": summary, "case": doc}], "violation"
     return judge(item, inst, obs)
@@ -720,9 +744,12 @@ def run(tier, seed):
                           "extra": par["extra"]})
     # deterministic partition into units of ~BATCH items that share a file; interleaved over tasks
     units = []
-    for group in ([it for it in items if _clean_refusal(it)], [it for it in items if not _clean_refusal(it)]):
+    alone = [it for it in items if it["c"]["fam"] == "Map" and _wrapped_map_invalid(it, instantiate(it))]
+    rest = [it for it in items if not (it["c"]["fam"] == "Map" and _wrapped_map_invalid(it, instantiate(it)))]
+    for group in ([it for it in rest if _clean_refusal(it)], [it for it in rest if not _clean_refusal(it)]):
         n_units = max(1, len(group) // BATCH)
         units += [group[i::n_units] for i in range(n_units) if group[i::n_units]]
+    units += [[it] for it in alone]  # predicted by MapKeyWrapsU32 to leave a file that cannot be re-opened
     n_tasks = max(1, min(len(units), 16 * 12))
     tasks = [units[i::n_tasks] for i in range(n_tasks)]
     viol = _check_constants()
